@@ -63,6 +63,9 @@ inductive CompleteArg where
 
 structure Cfg where
   arg : CompleteArg
+  /-- `pipeline.executeStage` has a deferred `recover` that completes the stage it started when the
+  stage panics while executing inline (fixes/C19-stage-recover.patch); `false` = the source as it is -/
+  stageRecover : Bool
   deriving DecidableEq, Repr, Inhabited
 
 /-- atomic instructions (see the header) -/
@@ -148,9 +151,15 @@ def stepInstr (cfg : Cfg) (sh : Shared) (pooled : Bool) (i : Instr) (rest : List
     | .ok => ⟨sh, handler s ++ rest, []⟩                        -- completeHandle()
     | .error => ⟨{ sh with failed := true }, .track true :: rest, []⟩   -- errHandle(err)
     | .panic =>
-      -- unwinds to execTask's recover (→ panicHandle(err) = errHandle of the task's stage)
-      -- or to pipeline.Execute's recover (→ sm.complete(err))
-      ⟨{ sh with failed := true }, if pooled then [.track true] else [.fire true true], []⟩
+      if cfg.stageRecover then
+        -- repaired variant: the panic unwinds to the deferred recover of the `executeStage` frame that
+        -- started this stage (inline stage), or to execTask's recover (a pooled stage's own task,
+        -- `rest = []`): either way → completeStage(stageID, err) and the continuation goes on
+        ⟨{ sh with failed := true }, .track true :: rest, []⟩
+      else
+        -- unwinds to execTask's recover (→ panicHandle(err) = errHandle of the task's stage)
+        -- or to pipeline.Execute's recover (→ sm.complete(err))
+        ⟨{ sh with failed := true }, if pooled then [.track true] else [.fire true true], []⟩
   | .track e =>
     -- completeStage: Lock; (repaired: if err != nil && sm.err == nil { sm.err = err }); bookkeeping; Unlock
     ⟨{ sh with firstErr := sh.firstErr || (decide (cfg.arg = .first) && e) }, .dec e :: rest, []⟩
@@ -268,8 +277,9 @@ The fact extractor (`harness/internal/extract/facts_c19.go`) re-reads these from
 (calls, field stores, returns and branch conditions in source order, prefixed by the enclosing
 branch / closure / defer) and `Props/C19.lean` proves the regenerated lists equal to the ones below. -/
 
-/-- the variant the regenerated fact `completePassesFirstError` selects -/
-def cfgOf (passesFirstError : Bool) : Cfg := ⟨if passesFirstError then .first else .own⟩
+/-- the variant the regenerated facts `completePassesFirstError`, `stageRecoversPanic` select -/
+def cfgOf (passesFirstError stageRecovers : Bool) : Cfg :=
+  ⟨if passesFirstError then .first else .own, stageRecovers⟩
 
 /-- `pipelineStateMachine.completeStage`: `track` = the section between Lock and Unlock, `dec` = the
 `Dec() == 0` test, then `fire e e` (own) resp. `load`, `fire firstErr` (first) -/
@@ -300,10 +310,13 @@ def registerOrder : List String := ["sm.mutex.Lock()", "defer:sm.mutex.Unlock()"
 def pipelineExecuteOrder : List String :=
   ["defer:λ1:recover()", "defer:λ1:then:p.sm.complete(err)", "p.executeStage(\"\", stage)"]
 
-/-- `pipeline.executeStage` (`start`, `register`, `launch`; λ1 = `handler`, λ2 = the error handler) -/
-def pipelineExecuteStageOrder : List String :=
-  ["if stage == nil || p.sm.isCompleted()", "p.sm.executeStage(parentStageID, stageID, stage)",
-   "stage.Execute(stage.Plan(), (func() literal), (func(err error) literal))",
+/-- `pipeline.executeStage` (`start`, `register`, `launch`; λ1 = `handler`, λ2 = the error handler);
+with `stageRecover` the deferred recover that completes the stage -/
+def pipelineExecuteStageOrder (stageRecover : Bool) : List String :=
+  ["if stage == nil || p.sm.isCompleted()", "p.sm.executeStage(parentStageID, stageID, stage)"] ++
+  (if stageRecover then
+    ["defer:λ1:recover()", "defer:λ1:then:p.sm.completeStage(stageID, errorpkg.Error(r))"] else []) ++
+  ["stage.Execute(stage.Plan(), (func() literal), (func(err error) literal))",
    "λ1:stage.NextStages()", "λ1:loop:p.executeStage(stageID, nextStages[idx])",
    "λ1:p.sm.completeStage(stageID, nil)", "λ2:p.sm.completeStage(stageID, err)"]
 
